@@ -595,6 +595,8 @@ def transform_fn(text, spec):
     cafter = spec.get('afterclosure', {})
     for n in list(cspec) + list(cafter):
         if n >= len(sh.closures):
+            if len(sh.closures) == 0:
+                continue      # the function has no closure any more: a contract for one has nothing to attach to and nothing to say
             raise ExtractError('fn %s: closure ordinal %d not found (has %d closures)' % (sh.name, n, len(sh.closures)))
     for n, cl in enumerate(sh.closures):
         contract = (cspec.get(n) or '').strip()
